@@ -274,6 +274,98 @@ fn run(case: &Case) -> Outcome {
     Ok(Pass { nontrivial: both_kinds, labels })
 }
 
+/// Exhaustive small scope: every pair of replicas every pool of `replicas::small` can build, every purge combination
+/// where purging can matter, and (inside one case) every split of the difference into fetch chunks and removal batch.
+/// Words: [universe, variant, pool, plan A, plan B, purge bits].
+pub struct C05Small;
+
+fn pairs(which: usize, variant: usize, purges: &[u64], out: &mut Vec<Vec<u64>>) {
+    let sm = crate::replicas::small(which);
+    for pi in 0..sm.pools.len() {
+        let n = sm.plans[pi][variant].len() as u64;
+        for a in 0..n {
+            for b in 0..n {
+                for p in purges {
+                    out.push(vec![which as u64, variant as u64, pi as u64, a, b, *p]);
+                }
+            }
+        }
+    }
+}
+
+pub fn small_space() -> Vec<Vec<u64>> {
+    let mut out = vec![];
+    pairs(0, 2, &[0], &mut out); // Window: nothing is ever purgeable
+    pairs(1, 2, &[0, 1, 2, 3], &mut out); // Prefix: stamps over > 2 h, purged or not
+    pairs(2, 1, &[0, 1, 2, 3], &mut out); // Gaps on the exact 1 h grid (exactness only), one source per replica
+    out
+}
+
+pub fn small_space_thorough() -> Vec<Vec<u64>> {
+    let mut out = small_space();
+    pairs(2, 2, &[0, 1, 2, 3], &mut out); // Gaps, every source assignment
+    out
+}
+
+impl Prop for C05Small {
+    type Case = Case;
+
+    fn id(&self) -> &'static str {
+        "C05"
+    }
+
+    fn part(&self) -> &'static str {
+        "small-scope-pairs"
+    }
+
+    fn width(&self) -> usize {
+        6
+    }
+
+    fn gen(&self, src: &mut Src) -> Case {
+        let which = (src.word() as usize).min(2);
+        let variant = (src.word() as usize).clamp(1, 2);
+        let sm = crate::replicas::small(which);
+        let pi = (src.word() as usize) % sm.pools.len();
+        let plans = &sm.plans[pi][variant];
+        let mut pick = || plans[(src.word() as usize) % plans.len()].clone();
+        let plans2 = [pick(), pick()];
+        let p = src.word();
+        Case { pool: sm.pools[pi].clone(), plans: plans2, purge: [p & 1 == 1, p & 2 == 2], chunks: [1, 1], removal_pos: [0, 0], wall: 0 }
+    }
+
+    fn run(&self, case: &Case) -> Outcome {
+        // every split of the difference: 1-2 fetch chunks (there are two keys), removal batch first / between / last
+        let mut last = None;
+        for chunks in 1..=2usize {
+            for pos in 0..=2usize {
+                let c = Case { chunks: [chunks, 3 - chunks], removal_pos: [pos, 2 - pos], ..case.clone() };
+                last = Some(run(&c)?);
+                if case.pool.mode == Mode::Gaps {
+                    return Ok(last.unwrap()); // exactness only: the split plays no part
+                }
+            }
+        }
+        Ok(last.unwrap())
+    }
+
+    fn describe(&self, case: &Case) -> Value {
+        C05.describe(case)
+    }
+
+    fn rule(&self) -> &'static str {
+        "exhaustive: every pool of 1-3 operations with distinct stamps out of a universe of 4 (Window, a cross-node tie) or 5 \
+         (Prefix over 7400 s; Gaps on the exact 1 h grid) stamps from two origins, keys {1,2}, insert / delete; every pair of \
+         OrSWotSet<2> replicas such a pool can build (every ordered subset / every per-origin prefix, every assignment of \
+         sources; Gaps with one source per replica, all assignments in the thorough tier), each purged or not where anything \
+         can be purgeable; inside a case every split of the difference (1-2 fetch chunks, removal batch first / between / \
+         last); same oracles as diff-exact-and-repair"
+    }
+}
+
 pub fn parts() -> Vec<Box<dyn DynPart>> {
-    vec![Box::new(Gen::new(C05, 6_000_000, 400_000_000))]
+    vec![
+        Box::new(Gen::new(C05, 6_000_000, 400_000_000)),
+        Box::new(Gen::listed2(C05Small, small_space, small_space_thorough)),
+    ]
 }
